@@ -19,6 +19,7 @@ Abstract cases (table spec as in C06: `id:N | rw:N:SEQ | txt:TABLE`):
 
   pick  CHOICES SEEDS           weightedrand.NewChooser + Pick run directly, pointwise against `newChooser` / `pick`
   freqmix SPEC protein calls    per-letter codon counts over one mixed protein (STATISTICAL, every letter judged)
+  pos   SPEC protein calls      codon counts PER POSITION of a short protein (STATISTICAL: every position on its own)
   pairs SPEC XY reps calls      counts of adjacent codon pairs (STATISTICAL: consecutive picks are independent)
   replay SPEC protein           one Optimize call replayed EXACTLY on the model: the harness finds the clock seed
 
@@ -47,6 +48,7 @@ def render (f : List String) : List String :=
   | "hist" :: spec :: n :: steps => "opthist" :: spec :: n :: steps
   | ["pick", choices, seeds] => ["pick", choices, seeds]
   | ["freqmix", spec, p, calls] => ["optfreqmix", spec, p, calls]
+  | ["pos", spec, p, calls] => ["optpos", spec, p, calls]
   | ["pairs", spec, unit, reps, calls] =>
     ["optpairs", spec, String.ofList ((List.replicate (natOfStr reps) unit.toList).flatten), calls]
   | ["replay", spec, p] =>
@@ -207,23 +209,27 @@ def judgeOpt (kind spec : String) (p : Str) (n : Nat) (out : List String) : Verd
 def judgeHist (spec : String) (n : Nat) (steps : List String) (out : List String) : Verdict :=
   match out with
   | "ok" :: rest =>
-    let rec go (fuel : Nat) (steps : List String) (rest : List String) (corr j wf : Bool) (detail : String) (nO : Nat) :
-        Bool × Bool × Bool × String × Nat :=
+    -- `live`: no `S:` step so far.  After an `S:` step the instance is a hand-modified table (outside the quantifier): the
+    -- later steps are still compared with the model (`corr`) but only the steps BEFORE it are judged.
+    let rec go (fuel : Nat) (steps : List String) (rest : List String) (corr j wf live : Bool) (detail : String) (nO nJ : Nat) :
+        Bool × Bool × Bool × String × Nat × Nat :=
       match fuel with
-      | 0 => (false, false, wf, "fuel", nO)
+      | 0 => (false, false, wf, "fuel", nO, nJ)
       | fuel + 1 =>
         match steps with
-        | [] => (corr && rest.isEmpty, j, wf, detail, nO)
+        | [] => (corr && rest.isEmpty, j, wf, detail, nO, nJ)
         | step :: more =>
-          if step.startsWith "W:" || step.startsWith "S:" then go fuel more rest corr j wf detail nO
+          if step.startsWith "W:" then go fuel more rest corr j wf live detail nO nJ
+          else if step.startsWith "S:" then go fuel more rest corr j wf false detail nO nJ
           else if step.startsWith "O:" then
             match rest with
             | "O" :: tt :: rest' =>
               let t := parseTable tt
               let p := (step.drop 2).toString.toList
               let (c1, j1, _, d1) := judgeRuns "opt" t .txt p n (runsOf (rest'.take (4 * n)))
-              go fuel more (rest'.drop (4 * n)) (corr && c1) (j && j1) (wf && inQuant t) (if d1.isEmpty then detail else d1) (nO + 1)
-            | _ => (false, false, wf, "reply shape", nO)
+              go fuel more (rest'.drop (4 * n)) (corr && c1) (if live then j && j1 else j) (if live then wf && inQuant t else wf) live
+                (if d1.isEmpty || !(live || !c1) then detail else d1) (nO + 1) (if live then nJ + 1 else nJ)
+            | _ => (false, false, wf, "reply shape", nO, nJ)
           else if step.startsWith "T:" then
             match rest with
             | "T" :: tt :: st :: v :: rest' =>
@@ -235,13 +241,14 @@ def judgeHist (spec : String) (n : Nat) (steps : List String) (out : List String
                 match PolyVerif.Driver.C06.specTranslation t .txt s with
                 | some x => ["ok", String.ofList x]
                 | none => ["?"]
-              go fuel more rest' (corr && (o == m || (s.isEmpty && o == ["ok", ""]))) (j && o == expect) (wf && decide (WFTable t))
-                (if o == m && o == expect then detail else lineOf (m ++ ["expect"] ++ expect)) nO
-            | _ => (false, false, wf, "reply shape", nO)
-          else (false, false, wf, "bad step", nO)
-    let (corr, j, wf, detail, nO) := go (steps.length + 1) steps rest true true true "" 0
-    { corr := corr, judge := if wf then some j else none,
-      cls := "hist/" ++ toString nO ++ "opt-of-" ++ toString steps.length ++ "steps", detail := detail }
+              let c1 := o == m || (s.isEmpty && o == ["ok", ""])
+              go fuel more rest' (corr && c1) (if live then j && o == expect else j) (if live then wf && decide (WFTable t) else wf) live
+                (if c1 && (o == expect || !live) then detail else lineOf (m ++ ["expect"] ++ expect)) nO (if live then nJ + 1 else nJ)
+            | _ => (false, false, wf, "reply shape", nO, nJ)
+          else (false, false, wf, "bad step", nO, nJ)
+    let (corr, j, wf, detail, nO, nJ) := go (steps.length + 1) steps rest true true true true "" 0 0
+    { corr := corr, judge := if wf && nJ > 0 then some j else none,
+      cls := "hist/" ++ toString nO ++ "opt-of-" ++ toString steps.length ++ "steps" ++ (if nJ < nO then "/judged-before-S" else ""), detail := detail }
   | st :: _ => noAnswer "hist" spec st
   | [] => noAnswer "hist" spec "no-reply"
 
@@ -408,6 +415,37 @@ def judgeFreqMix (spec : String) (p : Str) (calls : Nat) (out : List String) : V
   | st :: _ => noAnswer "freqmix" spec st
   | [] => noAnswer "freqmix" spec "no-reply"
 
+/-- `pos SPEC protein calls`: counts are kept PER POSITION of a short protein over `calls` calls; at every position the
+counts of the residue's eligible codons lie within 8 sigma + 1 of calls · w/max (a choice that depends on the position —
+"the first residue always gets the most used codon" — is invisible to counts pooled per letter) -/
+def judgePos (spec : String) (p : Str) (calls : Nat) (out : List String) : Verdict :=
+  match out with
+  | ["ok", reported, counts, bad] =>
+    match tableOf spec reported with
+    | none => { corr := false, judge := none, cls := "bad-spec" }
+    | some (t, k) =>
+      let per := (splitNonEmpty counts ";").map fun e =>
+        match e.splitOn ":" with
+        | [i, cs] => (natOfStr i, parseCounts cs)
+        | _ => (0, [])
+      let okPos (ia : Nat × Char) : Bool × Bool :=
+        let items := itemsOf t [ia.2]
+        let cs := match per.find? (·.1 == ia.1) with | some e => e.2 | none => []
+        let support := (cs.all fun (c, _) => items.any (·.1 == c)) && (cs.map (·.2)).foldl (· + ·) 0 == calls
+        let elig := specEligible t [ia.2]
+        let j := (cs.all fun (c, _) => elig.contains c) && sameSet elig (items.map (·.1)) &&
+          elig.all fun c => band calls (shareOf items c) (match cs.find? (·.1 == c) with | some e => e.2 | none => 0)
+        (support, j)
+      let res := ((List.range p.length).zip p).map okPos
+      let corr := bad == "0" && tableSame k reported && res.all (·.1) && per.length == p.length
+      let j := bad == "0" && res.all (·.2)
+      { corr := corr, judge := if inQuant t && specEncodable t p && !p.isEmpty then some j else none,
+        cls := "stat:pos/" ++ kindTag k ++ "/" ++ toString p.length ++ "positions",
+        detail := if corr && j then "" else "positions out of band or support: " ++
+          toString (((List.range p.length).zip res).filterMap fun (i, r) => if r.1 && r.2 then none else some i) }
+  | st :: _ => noAnswer "pos" spec st
+  | [] => noAnswer "pos" spec "no-reply"
+
 /-- `pairs SPEC XY reps calls`: the protein is XY repeated; the codon pairs at positions (2i, 2i+1) are independent
 draws, so the count of (c1, c2) lies within 8 sigma + 1 of N · share(c1) · share(c2) -/
 def judgePairs (spec : String) (unit : Str) (reps calls : Nat) (out : List String) : Verdict :=
@@ -473,6 +511,7 @@ def judge (f out : List String) : Verdict :=
   | "hist" :: spec :: n :: steps => judgeHist spec (natOfStr n) steps out
   | ["pick", choices, _] => judgePick choices out
   | ["freqmix", spec, p, calls] => judgeFreqMix spec p.toList (natOfStr calls) out
+  | ["pos", spec, p, calls] => judgePos spec p.toList (natOfStr calls) out
   | ["pairs", spec, unit, reps, calls] => judgePairs spec unit.toList (natOfStr reps) (natOfStr calls) out
   | ["replay", spec, p] => judgeReplay spec p.toList out
   | _ => { corr := false, judge := none, cls := "bad-case", detail := "bad case" }
